@@ -258,6 +258,7 @@ func (l *mapLoop) sameMap(v ssa.Value) bool {
 type ordEffect struct {
 	in  ssa.Instruction
 	why string
+	sig string // spelling-independent form of the effect (callee, argument position, write kinds); "" = use why
 }
 
 // dependsOnCarried: v is computed (inside the region) from a loop-carried phi of the head.
@@ -454,13 +455,13 @@ func (c *Ctx) classifyLoop(l *mapLoop) (sens []ordEffect, notes []string) {
 		case l.sameMap(m) && l.isIterKey(k):
 			note(what + " of the current entry of the ranged map")
 		case l.sameMap(m):
-			sens = append(sens, ordEffect{in, what + " on the map being ranged over with a key other than the current one: whether the affected entry is still visited depends on iteration order"})
+			sens = append(sens, ordEffect{in, what + " on the map being ranged over with a key other than the current one: whether the affected entry is still visited depends on iteration order", ""})
 		case l.isIterKey(k) && (v == nil || !l.dependsOnCarried(v, map[ssa.Value]bool{})):
 			note(what + " keyed by the iteration key (distinct per iteration)")
 		case v == nil || isNilOrConst(v) || zeroSized(v.Type()):
 			note(what + " of a constant (set insertion / idempotent)")
 		default:
-			sens = append(sens, ordEffect{in, what + " on loop-invariant map " + c.P.KeyTerm(m, 3) + " keyed by " + c.P.KeyTerm(k, 3) + ", which is not the iteration key: colliding keys make the last writer win"})
+			sens = append(sens, ordEffect{in, what + " on loop-invariant map " + c.P.KeyTerm(m, 3) + " keyed by " + c.P.KeyTerm(k, 3) + ", which is not the iteration key: colliding keys make the last writer win", ""})
 		}
 	}
 	for _, b := range blocks {
@@ -477,12 +478,12 @@ func (c *Ctx) classifyLoop(l *mapLoop) (sens []ordEffect, notes []string) {
 				case l.isPerIterationCell(x.Addr):
 					note("store to a loop variable that is re-assigned at the top of every iteration")
 				default:
-					sens = append(sens, ordEffect{in, "store of an iteration-dependent value to " + c.P.KeyTerm(x.Addr, 3) + " which outlives the iteration (last writer wins)"})
+					sens = append(sens, ordEffect{in, "store of an iteration-dependent value to " + c.P.KeyTerm(x.Addr, 3) + " which outlives the iteration (last writer wins)", ""})
 				}
 			case *ssa.Send:
-				sens = append(sens, ordEffect{in, "channel send inside the loop (delivery order follows iteration order)"})
+				sens = append(sens, ordEffect{in, "channel send inside the loop (delivery order follows iteration order)", ""})
 			case *ssa.Go:
-				sens = append(sens, ordEffect{in, "goroutine spawned per entry (spawn order follows iteration order)"})
+				sens = append(sens, ordEffect{in, "goroutine spawned per entry (spawn order follows iteration order)", ""})
 			case *ssa.Return:
 				for i, r := range x.Results {
 					rv := retValue(x, i)
@@ -498,9 +499,9 @@ func (c *Ctx) classifyLoop(l *mapLoop) (sens []ordEffect, notes []string) {
 						if _, isParam := rv.(*ssa.Parameter); isParam {
 							continue
 						}
-						sens = append(sens, ordEffect{in, "early return of outer state " + c.P.KeyTerm(rv, 3) + " from inside the loop"})
+						sens = append(sens, ordEffect{in, "early return of outer state " + c.P.KeyTerm(rv, 3) + " from inside the loop", ""})
 					default:
-						sens = append(sens, ordEffect{in, "early return of an iteration-dependent value " + c.P.KeyTerm(rv, 3) + " (which entry is reached first depends on iteration order)"})
+						sens = append(sens, ordEffect{in, "early return of an iteration-dependent value " + c.P.KeyTerm(rv, 3) + " (which entry is reached first depends on iteration order)", ""})
 					}
 				}
 				note("early exit carrying only an error / constants (existence search)")
@@ -513,7 +514,7 @@ func (c *Ctx) classifyLoop(l *mapLoop) (sens []ordEffect, notes []string) {
 					continue
 				}
 				if _, isDefer := in.(*ssa.Defer); isDefer {
-					sens = append(sens, ordEffect{in, "defer inside the loop (run order follows iteration order)"})
+					sens = append(sens, ordEffect{in, "defer inside the loop (run order follows iteration order)", ""})
 					continue
 				}
 				c.classifyCall(l, x, &sens, note)
@@ -553,7 +554,7 @@ func (c *Ctx) classifyLoop(l *mapLoop) (sens []ordEffect, notes []string) {
 				note("break carrying an error")
 				continue
 			}
-			sens = append(sens, ordEffect{phi, "break leaves the loop with an iteration-dependent value " + c.P.KeyTerm(e, 3)})
+			sens = append(sens, ordEffect{phi, "break leaves the loop with an iteration-dependent value " + c.P.KeyTerm(e, 3), ""})
 		}
 	}
 	return
@@ -634,7 +635,7 @@ func (c *Ctx) classifyCarried(l *mapLoop, phi *ssa.Phi, sens *[]ordEffect, note 
 		case *ssa.BinOp:
 			if (x.Op == token.ADD || x.Op == token.OR || x.Op == token.AND) && (x.X == ssa.Value(phi) || x.Y == ssa.Value(phi)) && isNumeric(phi.Type()) {
 				if usedInRegion(phi, x) || usedInRegion(x, nil) {
-					*sens = append(*sens, ordEffect{x, "running counter " + c.P.KeyTerm(phi, 2) + " is used inside the loop (e.g. as an index): its value at a given entry depends on iteration order"})
+					*sens = append(*sens, ordEffect{x, "running counter " + c.P.KeyTerm(phi, 2) + " is used inside the loop (e.g. as an index): its value at a given entry depends on iteration order", ""})
 				} else {
 					note("commutative accumulation (sum / count)")
 				}
@@ -648,7 +649,7 @@ func (c *Ctx) classifyCarried(l *mapLoop, phi *ssa.Phi, sens *[]ordEffect, note 
 					c.unsortedResult[l.fn] = true
 					note("append accumulation returned unsorted: obligation moves to the callers")
 				} else {
-					*sens = append(*sens, ordEffect{x, "elements appended in iteration order to " + c.P.KeyTerm(phi, 2) + " and used without sorting"})
+					*sens = append(*sens, ordEffect{x, "elements appended in iteration order to " + c.P.KeyTerm(phi, 2) + " and used without sorting", ""})
 				}
 				continue
 			}
@@ -660,12 +661,12 @@ func (c *Ctx) classifyCarried(l *mapLoop, phi *ssa.Phi, sens *[]ordEffect, note 
 					c.unsortedResult[l.fn] = true
 					note("append accumulation returned unsorted: obligation moves to the callers")
 				} else {
-					*sens = append(*sens, ordEffect{x, "elements appended in iteration order to " + c.P.KeyTerm(phi, 2) + " and used without sorting"})
+					*sens = append(*sens, ordEffect{x, "elements appended in iteration order to " + c.P.KeyTerm(phi, 2) + " and used without sorting", ""})
 				}
 				continue
 			}
 		}
-		*sens = append(*sens, ordEffect{phi, "loop-carried value " + c.P.KeyTerm(phi, 2) + " updated with " + c.P.KeyTerm(u, 3) + ": the value after the loop depends on iteration order"})
+		*sens = append(*sens, ordEffect{phi, "loop-carried value " + c.P.KeyTerm(phi, 2) + " updated with " + c.P.KeyTerm(u, 3) + ": the value after the loop depends on iteration order", ""})
 	}
 }
 
@@ -775,7 +776,7 @@ func (c *Ctx) classifyCall(l *mapLoop, x ssa.CallInstruction, sens *[]ordEffect,
 				if _, isParamFn := a.Type().Underlying().(*types.Signature); isParamFn {
 					continue
 				}
-				*sens = append(*sens, ordEffect{x, "passes loop-invariant mutable state " + c.P.KeyTerm(a, 3) + " to a function value on every iteration"})
+				*sens = append(*sens, ordEffect{x, "passes loop-invariant mutable state " + c.P.KeyTerm(a, 3) + " to a function value on every iteration", ""})
 			}
 		}
 		return
@@ -784,7 +785,7 @@ func (c *Ctx) classifyCall(l *mapLoop, x ssa.CallInstruction, sens *[]ordEffect,
 		if idx, ok := externalWriters[calleeName(callee)]; ok {
 			for _, i := range idx {
 				if i < len(all) && !l.own[all[i]] {
-					*sens = append(*sens, ordEffect{x, "external call " + calleeName(callee) + " writes loop-invariant state"})
+					*sens = append(*sens, ordEffect{x, "external call " + calleeName(callee) + " writes loop-invariant state", ""})
 				}
 			}
 		}
@@ -801,13 +802,14 @@ func (c *Ctx) classifyCall(l *mapLoop, x ssa.CallInstruction, sens *[]ordEffect,
 				note("callee " + c.P.FuncID(callee) + ": " + why)
 				continue
 			}
-			*sens = append(*sens, ordEffect{x, fmt.Sprintf("calls %s which writes through its loop-invariant argument %s (%s)", c.P.FuncID(callee), c.P.KeyTerm(a, 3), sum.WriteAt)})
+			*sens = append(*sens, ordEffect{x, fmt.Sprintf("calls %s which writes through its loop-invariant argument %s (%s)", c.P.FuncID(callee), c.P.KeyTerm(a, 3), sum.WriteAt),
+				fmt.Sprintf("a callee writes through the loop-invariant %s: %s", c.P.TypeStr(a.Type()), strings.Join(sum.KindList(), "; "))})
 		}
 	}
 	if call, isCall := x.(*ssa.Call); isCall && c.unsortedResult[callee] && c.orderFreeUses(call, l.fn) {
 		note("order-dependent result of " + c.P.FuncID(callee) + " only feeds membership tests / the caller's own unsorted accumulation")
 	} else if c.unsortedResult[callee] {
-		*sens = append(*sens, ordEffect{x, "uses the unsorted, order-dependent result of " + c.P.FuncID(callee)})
+		*sens = append(*sens, ordEffect{x, "uses the unsorted, order-dependent result of " + c.P.FuncID(callee), ""})
 	}
 }
 
@@ -935,10 +937,26 @@ func (c *Ctx) ORD(rule string, entry ...string) []report.Obligation {
 				} else {
 					o.Status = report.Violation
 					var ws []string
+					seenSig := map[string]bool{}
+					var sigs []string
 					for _, s := range sens {
 						ws = append(ws, s.why+" ["+c.P.InstrPos(s.in)+"]")
+						sg := s.sig
+						if sg == "" {
+							f := strings.Fields(s.why)
+							if len(f) > 6 {
+								f = f[:6]
+							}
+							sg = strings.Join(f, " ")
+						}
+						if !seenSig[sg] {
+							seenSig[sg] = true
+							sigs = append(sigs, sg)
+						}
 					}
+					sort.Strings(sigs)
 					o.Why = "order-sensitive: " + strings.Join(ws, " | ")
+					o.Detail = map[string]any{"loop_sig": c.loopSig(l), "reasons": sigs}
 				}
 				out2 = append(out2, o)
 			}
@@ -1083,12 +1101,30 @@ func (c *Ctx) loopSig(l *mapLoop) string {
 	return c.P.TypeStr(l.rng.X.Type()) + " | calls " + strings.Join(cs, ",")
 }
 
-// LoopSnapshot: ORD key -> signature for every map range of the module (written to loops.json by -snapshot).
-func (c *Ctx) LoopSnapshot() map[string]string {
-	out := map[string]string{}
+// LoopRef is what loops.json keeps of a map range of the reference tree.
+type LoopRef struct {
+	Sig     string   `json:"sig"`
+	Reasons []string `json:"reasons,omitempty"` // the order-sensitive effects a justification was written against
+}
+
+// LoopSnapshot: ORD key -> signature (and, for the loops ORD classifies as order-sensitive, the effects found)
+// for every map range of the module (written to loops.json by -snapshot).
+func (c *Ctx) LoopSnapshot() map[string]LoopRef {
+	out := map[string]LoopRef{}
 	for _, f := range c.P.Funcs {
 		for _, l := range findMapLoops(f) {
-			out[c.P.FuncID(f)+" :: range "+c.P.KeyTerm(l.rng.X, 3)] = c.loopSig(l)
+			out[c.P.FuncID(f)+" :: range "+c.P.KeyTerm(l.rng.X, 3)] = LoopRef{Sig: c.loopSig(l)}
+		}
+	}
+	for _, o := range c.ORD("ORD", "LOAD", "RENDER") {
+		d, ok := o.Detail.(map[string]any)
+		if !ok {
+			continue
+		}
+		if rs, ok := d["reasons"].([]string); ok {
+			ref := out[o.Key]
+			ref.Reasons = rs
+			out[o.Key] = ref
 		}
 	}
 	return out
